@@ -186,3 +186,47 @@ pub fn no_extra(_: &Target, _: &[u8], _: &Got, _: &Ref, _: &mut Sink) {}
 pub fn identity_wrap(p: &[u8], out: &mut Vec<u8>) {
     out.extend_from_slice(p);
 }
+
+/// The sizes tried for a variable-length field: all of them in the thorough tier; in the quick
+/// tier every size up to 2200, every size within 300 of each power of two and of the record cap,
+/// the top 300, and every 13th size elsewhere.
+pub fn sizes(max: usize, thorough: bool) -> Vec<usize> {
+    if thorough {
+        return (0..=max).collect();
+    }
+    let mut v = Vec::new();
+    for n in 0..=max {
+        let near_pow2 = (8..=24).any(|k| {
+            let p = 1usize << k;
+            n + 300 >= p && n <= p + 300
+        });
+        let near_cap = n + 300 >= 16640 && n <= 16640 + 300;
+        if n <= 2200 || near_pow2 || near_cap || n + 300 >= max || n % 13 == 0 {
+            v.push(n);
+        }
+    }
+    v
+}
+
+/// Well-formed encodings in which one variable-length field takes every size (all enclosing
+/// length fields consistent), through `targets`.
+pub fn size_sweep(
+    run: &Run,
+    targets: &[&Target],
+    max: usize,
+    build: &(dyn Fn(usize) -> vcommon::en::W + Sync),
+    extra: &(dyn Fn(&Target, &[u8], &Got, &Ref, &mut Sink) + Sync),
+) -> Sink {
+    let all = sizes(max, run.tier == Tier::Thorough);
+    let chunks: Vec<&[usize]> = all.chunks(64).collect();
+    par_run(run.threads, chunks.len(), |i, sink| {
+        for &n in chunks[i] {
+            let w = build(n);
+            for t in targets {
+                let (g, r) = check_case(run.prop, t, &w.buf, sink);
+                extra(t, &w.buf, &g, &r, sink);
+                sink.bump("size-sweep cases", 1);
+            }
+        }
+    })
+}
